@@ -432,6 +432,26 @@ impl Check for C04 {
                 }
             }
         }
+        // a help text of several styled fragments with multi-byte characters on its first line
+        // (completion descriptions are cut from it), beside an argument and a command
+        {
+            let h = DocSpec(vec![(Sty::Text, "→ ".into()), (Sty::Lit, "größe".into()), (Sty::Text, " in bytes\nsecond line".into())]);
+            let sw = P::Switch(Names { shorts: vec!['s'], longs: vec!["size".into()], envs: vec![], help: Some(h.clone()), long_first: false });
+            let ar = P::Arg { names: Names { shorts: vec!['n'], longs: vec!["num".into()], envs: vec![], help: Some(h.clone()), long_first: false }, ty: Ty::Os, adjacent: false, metavar: "N".into() }.opt();
+            let ps = P::Pos { ty: Ty::Os, strict: Strict::Any, metavar: "FILE".into(), help: Some(h.clone()) }.opt();
+            let cm = P::Cmd { name: "cmd".into(), shorts: vec![], longs: vec![], inner: Box::new(Opts::new(P::Seq(vec![P::Switch(Names::short('x'))]))), adjacent: false, help: Some(h) }.opt();
+            out.push(serde_json::to_value(Unit { opts: Opts::new(P::Seq(vec![sw.clone(), ar.clone(), ps])), len: 2, family: "styled-multibyte-help".into() }).unwrap());
+            out.push(serde_json::to_value(Unit { opts: Opts::new(P::Seq(vec![sw, ar, cm])), len: 2, family: "styled-multibyte-help".into() }).unwrap());
+        }
+        // a choice whose losing branch leaves its item for a later parser that narrows the scope
+        // (a sub-command / an adjacent group declaring the same name)
+        {
+            let choice = P::Alt(vec![P::Map(P::Switch(Names::short('a')).bx(), "a".into()), P::Map(P::Switch(Names::short('b')).bx(), "b".into())]);
+            let sub = P::cmd("cmd", Opts::new(P::Seq(vec![P::Switch(Names::short('b'))]))).opt();
+            let grp = P::Adj(vec![P::ReqFlag(Names::short('p')), P::Switch(Names::short('b')), P::arg(Names::short('n'), Ty::Os)]).opt();
+            out.push(serde_json::to_value(Unit { opts: Opts::new(P::Seq(vec![choice.clone(), sub])), len: 4, family: "nested-adjacent:-a -b cmd v".into() }).unwrap());
+            out.push(serde_json::to_value(Unit { opts: Opts::new(P::Seq(vec![choice, grp])), len: 5, family: "nested-adjacent:-a -b -p -n 3".into() }).unwrap());
+        }
         // one short name declared both as a flag and as an argument (reported as ambiguous where a
         // block cannot be split): ASCII and multi-byte
         for c in ['a', 'é', '日'] {
